@@ -213,7 +213,7 @@ impl Prop for C03 {
     }
     fn runs(&self, tier: Tier) -> u64 {
         match tier {
-            Tier::Quick => 50_000,
+            Tier::Quick => 80_000,
             Tier::Thorough => 2_500_000,
         }
     }
